@@ -150,8 +150,10 @@ class BottomUpForward(Contract):
     functional = False
     pure = False
     no_crosscheck = True
-    no_replay = True
     cases = ("B1", "B2")
+    rand_ranges = {"N": (1, 2), "H": (3, 6), "W": (3, 6), "E": (1, 2), "Hp": (2, 4), "Wp": (2, 4), "I0": (0, 2), "I1": (0, 2), "Hi": (4, 8), "Wi": (4, 8), "cms": (0.0, 1.0), "pafs": (-1.0, 1.0),
+                   "instances0": (0.0, 20.0), "instances1": (0.0, 20.0), "eff_scale": (0.5, 2.0), "input_scale": (0.5, 1.0), "peak_threshold": (0.2, 0.8), "cms_output_stride": (1, 4),
+                   "pafs_output_stride": (1, 4), "image": (0.0, 1.0)}
     dims = ()
     bounded = ("BottomUpInferenceModel.forward / _generate_cms_peaks: batch size 1..2 (python loop over samples); map sizes, channel counts, numbers of peaks and instances, strides and scales symbolic",)
     not_decided = ("the analytic core of C03: that on ideal confidence maps / PAFs the true edge of an animal outscores every false candidate (score_paf_lines on sampled Gaussians) -- no claim",
@@ -183,6 +185,39 @@ class BottomUpForward(Contract):
         m, _ = cv.lookup("forward")
         self._inputs = {"image": a["image"], "eff_scale": a["eff"], "frame_idx": "frame_idx", "video_idx": "video_idx"}
         return interp.call(m, [obj, self._inputs], {})
+
+    def real_call(self, ra):
+        """(replay side) the real BottomUpInferenceModel with a stub network and a recording stub scorer."""
+        import torch
+        from pyvc.concrete import from_real
+        from sleap_nn.inference.bottomup import BottomUpInferenceModel
+
+        cms, pafs, inst = ra["cms"].float(), ra["pafs"].float(), [t.float() for t in ra["inst"]]
+
+        class Net(torch.nn.Module):
+            def forward(self, image):
+                return {"MultiInstanceConfmapsHead": cms, "PartAffinityFieldsHead": pafs}
+
+        outer = self
+
+        class Scorer:
+            got = None
+
+            def predict(self, pafs=None, peaks=None, peak_vals=None, peak_channel_inds=None):
+                un = lambda t: [from_real(x) for x in t.unbind()]
+                Scorer.got = dict(pafs=from_real(pafs), peaks=un(peaks), peak_vals=un(peak_vals), peak_channel_inds=un(peak_channel_inds))
+                nt = torch.nested.nested_tensor
+                z = [torch.zeros(0) for _ in inst]
+                return nt(list(inst)), nt(z), nt(z), None, None, None
+
+        self._scorer = Scorer
+        m = BottomUpInferenceModel(torch_model=Net(), paf_scorer=Scorer(), cms_output_stride=int(ra["cms_stride"]), pafs_output_stride=int(ra["pafs_stride"]),
+                                   peak_threshold=float(ra["thr"]), refinement=None, input_scale=float(ra["input_scale"]))
+        out = m.forward({"image": ra["image"].float(), "eff_scale": ra["eff"].float(), "frame_idx": "frame_idx", "video_idx": "video_idx"})
+        out[0]["pred_instance_peaks"] = list(out[0]["pred_instance_peaks"].unbind())
+        for k in ("pred_peak_values", "instance_scores"):
+            out[0].pop(k, None)
+        return out
 
     def ensures(self, c, result, cms, pafs, inst, eff, input_scale, thr, cms_stride, pafs_stride, image):
         from contracts.c06_local_peaks import is_peak
